@@ -58,6 +58,12 @@ class AbstractBlock(CborArray):
     crc_value_name = 'crc_value'
     ''' The name of the CRC-value field. '''
 
+    def do_dissect(self, s):
+        s = super().do_dissect(s)
+        # Array items beyond the defined fields are not a well-formed block
+        self.surplus_items = len(s)
+        return s
+
     def fill_fields(self):
         ''' Fill all fields so that the block is the full size it needs
         to be for encoding encoding with build().
@@ -101,7 +107,10 @@ class AbstractBlock(CborArray):
 
         crc_type = self.getfieldval(self.crc_type_name)
         crc_value = self.fields.get(self.crc_value_name)
-        if crc_type == 0:
+        if getattr(self, 'surplus_items', 0):
+            # e.g. a CRC value present while the CRC type says there is none
+            valid = False
+        elif crc_type == 0:
             valid = crc_value is None
         else:
             defn = AbstractBlock.CRC_DEFN[crc_type]
